@@ -83,7 +83,7 @@ fn exec(line: &str) -> (String, Option<String>, bool) {
     let root = match r {
         Ok(r) => r,
         Err(m) => {
-            let cls = if vds.iter().any(|v| sx(v).contains("(show ")) { "[hydrate-show] " } else { "" };
+            let cls = if vds.iter().any(|v| sx(v).contains("(keyed ")) { "[hydrate-list] " } else if vds.iter().any(|v| sx(v).contains("(show ")) { "[hydrate-show] " } else { "" };
             return ("panic".into(), Some(format!("{cls}[hydrate-panic] hydrating the output of the same view panicked: {m}")), true);
         }
     };
@@ -181,7 +181,8 @@ fn exec(line: &str) -> (String, Option<String>, bool) {
     let _ = catch(|| root.dispose());
     // known-finding class: hydration of `Show` (see DESIGN.md, D12)
     let has_show = vds.iter().any(|v| sx(v).contains("(show "));
-    let verdict = verdict.map(|v| if has_show { format!("[hydrate-show] {v}") } else { v });
+    let has_list = vds.iter().any(|v| sx(v).contains("(keyed "));
+    let verdict = verdict.map(|v| if has_list { format!("[hydrate-list] {v}") } else if has_show { format!("[hydrate-show] {v}") } else { v });
     (out.join(" | "), verdict, true)
 }
 
@@ -192,7 +193,7 @@ pub fn run(args: &Args) {
     for l in &lines {
         if !l.starts_with("hydrate run ") { continue; }
         let (obs, verdict, nt) = exec(l);
-        for k in ["dview", "show", "dtext", "(d ", "(b "] { if l.contains(k) { sink.count(&format!("has:{}", k.trim_matches(|c| c == '(' || c == ' '))); } }
+        for k in ["dview", "show", "dtext", "(d ", "(b ", "keyed", "nohydrate", "dview0"] { if l.contains(k) { sink.count(&format!("has:{}", k.trim_matches(|c| c == '(' || c == ' '))); } }
         if obs.contains("panic") { sink.count("result:panic"); }
         // the SSR string is long: keep the case line as is (the model ignores the last field)
         sink.case(l, &obs, verdict, nt);
